@@ -343,6 +343,48 @@ pub fn run(ctx: &Ctx) {
             bad.push(Case::BadUuid(String::from_utf8(b).unwrap(), format!("separator-replaced at={}", dash)));
         }
     }
+    // a separator moved by 1..3 positions in either direction (length stays 36), and two
+    // separators moved at once
+    let plain: Vec<u8> = base_uuid.bytes().filter(|c| *c != b'-').collect();
+    let with_dashes = |at: [usize; 4]| -> String {
+        // `at` = positions of the four dashes in the 36-character string
+        let mut out = Vec::new();
+        let mut k = 0;
+        for i in 0..36 {
+            if at.contains(&i) {
+                out.push(b'-');
+            } else {
+                out.push(plain[k % 32]);
+                k += 1;
+            }
+        }
+        String::from_utf8(out).unwrap()
+    };
+    let good = [8usize, 13, 18, 23];
+    for d in 0..4 {
+        for shift in [-3i32, -2, -1, 1, 2, 3] {
+            let mut at = good;
+            at[d] = (at[d] as i32 + shift) as usize;
+            if at.iter().collect::<std::collections::BTreeSet<_>>().len() == 4 {
+                bad.push(Case::BadUuid(with_dashes(at), format!("separator-moved by={}", shift.abs())));
+            }
+            for e in d + 1..4 {
+                let mut at2 = at;
+                at2[e] = (at2[e] as i32 + shift) as usize;
+                if at2.iter().collect::<std::collections::BTreeSet<_>>().len() == 4 && at2.iter().all(|x| *x < 36) {
+                    bad.push(Case::BadUuid(with_dashes(at2), format!("two-separators-moved by={}", shift.abs())));
+                }
+            }
+        }
+    }
+    // non-ASCII characters at a digit position (some have a hex digit as their low byte)
+    for nib in [0usize, 7, 8, 13, 19, 31] {
+        let pos = nib + (nib >= 8) as usize + (nib >= 12) as usize + (nib >= 16) as usize + (nib >= 20) as usize;
+        for c in ['\u{130}', '\u{141}', '\u{161}', '\u{665}', '\u{ff11}', '\u{ff21}', '\u{e9}', '\u{3b1}'] {
+            let t: String = base_uuid.chars().enumerate().map(|(i, x)| if i == pos { c } else { x }).collect();
+            bad.push(Case::BadUuid(t, "non-ascii-digit".into()));
+        }
+    }
     for nib in 0..32usize {
         let pos = nib + (nib >= 8) as usize + (nib >= 12) as usize + (nib >= 16) as usize + (nib >= 20) as usize;
         for &c in &printable_nonhex {
